@@ -333,6 +333,75 @@ pub fn workers() -> usize {
         .unwrap_or_else(|| std::thread::available_parallelism().map(|n| n.get()).unwrap_or(4).min(16))
 }
 
+/// Tape-aware shrinking: truncate, zero blocks (delta debugging), then reduce single words.
+/// A candidate is kept only if it fails with the same signature.
+pub fn shrink_tape(sub: &SubCheck, params: &Params, words: Vec<u32>, sig: &str, budget: usize) -> Vec<u32> {
+    let mut left = budget;
+    let fails = |w: &[u32], left: &mut usize| -> bool {
+        if *left == 0 {
+            return false;
+        }
+        *left -= 1;
+        matches!(run_case(sub, w, params, false).failure, Some(f) if f.sig == sig)
+    };
+    let mut cur = words;
+    // 1. cut to what was consumed, then try shorter prefixes
+    let used = run_case(sub, &cur, params, false).used;
+    if used < cur.len() {
+        cur.truncate(used);
+    }
+    let mut lo = 0usize; // shortest length known NOT to fail is unknown; binary search for a failing shorter prefix
+    let mut hi = cur.len();
+    while lo < hi && left > 0 {
+        let mid = (lo + hi) / 2;
+        if fails(&cur[..mid], &mut left) {
+            hi = mid;
+        } else {
+            lo = mid + 1;
+        }
+    }
+    if hi < cur.len() && fails(&cur[..hi], &mut left) {
+        cur.truncate(hi);
+    }
+    // 2. zero blocks
+    let mut chunk = (cur.len() / 2).max(1);
+    loop {
+        let mut i = 0;
+        while i < cur.len() && left > 0 {
+            let end = (i + chunk).min(cur.len());
+            if cur[i..end].iter().any(|w| *w != 0) {
+                let saved: Vec<u32> = cur[i..end].to_vec();
+                cur[i..end].iter_mut().for_each(|w| *w = 0);
+                if !fails(&cur, &mut left) {
+                    cur[i..end].copy_from_slice(&saved);
+                }
+            }
+            i = end;
+        }
+        if chunk == 1 || left == 0 {
+            break;
+        }
+        chunk = (chunk / 2).max(1);
+    }
+    // 3. lower single words
+    for i in 0..cur.len() {
+        let mut tries = 0;
+        while cur[i] != 0 && left > 0 && tries < 6 {
+            let saved = cur[i];
+            cur[i] = saved / 2;
+            if !fails(&cur, &mut left) {
+                cur[i] = saved;
+                break;
+            }
+            tries += 1;
+        }
+    }
+    while cur.last() == Some(&0) {
+        cur.pop();
+    }
+    cur
+}
+
 fn run_sub(prop: &Property, sub: &SubCheck, params: &Arc<Params>, cases_override: Option<u32>) -> SubResult {
     let total = cases_override.unwrap_or(match params.tier {
         Tier::Quick => sub.cases.0,
@@ -396,14 +465,20 @@ fn run_sub(prop: &Property, sub: &SubCheck, params: &Arc<Params>, cases_override
                         cfg.failure_persistence = None;
                         cfg.rng_seed = RngSeed::Fixed(seed);
                         cfg.rng_algorithm = RngAlgorithm::ChaCha;
-                        cfg.max_shrink_iters = if params.tier == Tier::Quick { 3000 } else { 10000 };
+                        // proptest generates; shrinking is done by the tape-aware pass below (zeroing keeps
+                        // later choices aligned, deleting words would re-interpret the rest of the tape)
+                        cfg.max_shrink_iters = 0;
                         cfg.max_shrink_time = 0;
                         cfg.verbose = 0;
                         cfg.source_file = None;
                         cfg.max_global_rejects = u32::MAX;
                         let mut runner = TestRunner::new(cfg);
-                        // length distribution: uniform over 0..tape_len; exhausted tape = simplest choices
-                        let strat = vec(any::<u32>(), 0..=sub.tape_len);
+                        // mostly full-length tapes (an exhausted tape yields the simplest choices, so short
+                        // tapes only produce small cases); 1 in 8 tapes has a uniformly random length
+                        let strat = proptest::prop_oneof![
+                            1 => vec(any::<u32>(), 0..=sub.tape_len),
+                            7 => vec(any::<u32>(), sub.tape_len..=sub.tape_len),
+                        ];
                         let res = runner.run(&strat, |words| {
                             let shrinking = first_sig.borrow().is_some();
                             if !shrinking && stop.load(Ordering::Relaxed) {
@@ -462,10 +537,12 @@ fn run_sub(prop: &Property, sub: &SubCheck, params: &Arc<Params>, cases_override
                         match res {
                             Ok(()) => {}
                             Err(TestError::Fail(_, words)) => {
-                                // re-run the minimal case strictly to obtain message
+                                let sig = first_sig.borrow().clone().unwrap_or_default();
+                                let budget = if params.tier == Tier::Quick { 3000 } else { 10000 };
+                                let words = shrink_tape(sub, &params, words, &sig, budget);
                                 let r = run_case(sub, &words, &params, false);
                                 let f = r.failure.unwrap_or(Failure {
-                                    sig: first_sig.borrow().clone().unwrap_or_default(),
+                                    sig,
                                     msg: "failure did not reproduce on the shrunk tape (flaky oracle?)".into(),
                                 });
                                 st.failure = Some((words, f));
